@@ -49,7 +49,15 @@ fn gen_single(ch: &mut Ch, thorough: bool) -> Option<Case> {
         C::LastOf2 => KeyForm::Twice,
         C::MiddleOf3 => KeyForm::Nested,
     };
-    let ts = container_spec(container, ctx, FieldSpec::cfg(combo, form), KeyStyle::Distinct);
+    let mut cfgf = FieldSpec::cfg(combo, form);
+    let keyed: Vec<Tr> = [Hash, Eq, Ord].iter().copied().filter(|t| combo.get(*t).key()).collect();
+    if !keyed.is_empty() {
+        let k = ch.pick(keyed.len() + 1);
+        if k > 0 {
+            cfgf.identity = Some(keyed[k - 1]);
+        }
+    }
+    let ts = container_spec(container, ctx, cfgf, KeyStyle::Distinct);
     Some(Case { gen: "single", vector: ch.vector(), ts, derived, entry })
 }
 
@@ -64,7 +72,7 @@ fn gen_multi(ch: &mut Ch, thorough: bool) -> Option<Case> {
     let mut fields = Vec::new();
     for i in 0..n {
         let c = *ch.of(&alpha);
-        let mut f = FieldSpec { ty: FTy::V, dom: 3, combo: c, form: [KeyForm::Method, KeyForm::Twice, KeyForm::Nested][i % 3] };
+        let mut f = FieldSpec { ty: FTy::V, dom: 3, combo: c, form: [KeyForm::Method, KeyForm::Twice, KeyForm::Nested][i % 3], identity: None };
         if c.is_plain() && i % 2 == 1 {
             f.ty = [FTy::U8, FTy::OptT, FTy::WT][(i / 2) % 3];
         }
